@@ -38,8 +38,10 @@ Proof.
   destruct (sextet_bounds b6 b7 H6 H7) as (C1 & C2 & _ & _ & _ & _).
   destruct (sextet_bounds b7 b7 H7 H7) as (_ & _ & _ & _ & C3 & _).
   rewrite !unalpha_alpha by assumption.
+  clear A1 A2 A3 A4 B1 B2 B3 B4 C1 C2 C3.
   cbn [sextets_bytes].
-  repeat f_equal; lia.
+  f_equal.
+  repeat (f_equal; [lia|]). f_equal. lia.
 Qed.
 
 Lemma be64_bytes x : exists b0 b1 b2 b3 b4 b5 b6 b7,
